@@ -217,6 +217,8 @@ def r17_1(rep, M, rid):
     for callee in (GEO + ".get_distances", GEO + ".get_center_of_mass", CLS + ".cross_validate_region"):
         for c in M.calls_to(FQ, callee):
             arg = c.args[0] if c.args else None
+            if isinstance(arg, ast.Call) and isinstance(arg.func, ast.Attribute) and arg.func.attr == "copy" and not arg.args and isinstance(arg.func.value, ast.Name):
+                arg = arg.func.value      # a copy of the working copy is as good as the working copy
             nn = fl.node_of(c)
             good = isinstance(arg, ast.Name) and arg.id != inp and inp in fl.slice(arg, nn)["params"] and (
                 arg.id in (IN[nn] or ()) or any(isinstance(x, ast.Name) and x.id in (IN[nn] or ()) for e in fl.slice(arg, nn)["exprs"] for x in ast.walk(e)))
